@@ -2,14 +2,38 @@ import CasbinModel.Basic
 import CasbinModel.Proto
 import CasbinModel.Effect
 import CasbinModel.RoleGraph
+import CasbinModel.Rbac
+import CasbinModel.KeyMatch
+import CasbinModel.Sexpr
 /-!
 # Line-protocol driver: runs the executable model on the harness' op stream.
 One op per input line, one canonical answer per output line.
 -/
 open Casbin Casbin.Proto
 
+/-- model definition being assembled by `m.*` ops -/
+structure Spec where
+  r : List (String × Nat) := []
+  p : List PolDef := []
+  g : List PolDef := []
+  e : List (String × String) := []
+  m : List (String × Option Expr) := []
+  tbl : List (String × Option Expr) := []
+
+def Spec.defs (s : Spec) : Defs := { r := s.r, e := s.e, m := s.m }
+def Spec.store (s : Spec) : Store := { p := s.p, g := s.g }
+
+def dummyEnforcer : Enforcer :=
+  { defs := ⟨[], [], []⟩, store := ⟨[], []⟩, adapter := AdapterSt.mk0 .null, rm := RoleMgr.new 10,
+    enabled := true, autoSave := true, autoBuild := true, autoNotify := true, callbacks := 1,
+    hasWatcher := false, gfuncs := [], userFns := [], log := [] }
+
 structure DrvState where
   rm : RoleMgr String := RoleMgr.new 10
+  spec : Spec := {}
+  enf : Enforcer := dummyEnforcer
+  /-- eval table in force for `enf` -/
+  tbl : List (String × Option Expr) := []
 
 def domOf (s : String) : String := if s == "-" then "DEFAULT" else unesc s
 
@@ -55,7 +79,158 @@ def effRun (s0 : Option Stream) (seq : List Char) : String :=
         go s' cs acc
     go s0 seq ""
 
+/-! ### enforcer -/
+
+/-- built-in functions of `FunctionMap::default()` on the modelled fragment -/
+def builtinCall (userFns : List String) (f : String) (args : List String) : Option Atom :=
+  let b (o : Option Bool) : Option Atom := o.map Atom.bool
+  let s (o : Option Str) : Option Atom := o.map (fun x => Atom.str (String.ofList x))
+  match f, args with
+  | "keyMatch", [a, c] => some (.bool (keyMatch a.toList c.toList))
+  | "keyGet", [a, c] => some (.str (String.ofList (keyGet a.toList c.toList)))
+  | "keyMatch2", [a, c] => b (keyMatch2 a.toList c.toList)
+  | "keyGet2", [a, c, d] => s (keyGet2 a.toList c.toList d.toList)
+  | "keyMatch3", [a, c] => b (keyMatch3 a.toList c.toList)
+  | "keyGet3", [a, c, d] => s (keyGet3 a.toList c.toList d.toList)
+  | "keyMatch4", [a, c] => b (keyMatch4 a.toList c.toList)
+  | "keyMatch5", [a, c] => b (keyMatch5 a.toList c.toList)
+  | "regexMatch", [a, c] => b (regexMatchAnchored a.toList c.toList)
+  | "eqFn", [a, c] => if "eqFn" ∈ userFns then some (.bool (a == c)) else none
+  | _, _ => none
+
+def tblFn (tbl : List (String × Option Expr)) (text : String) : Option Expr :=
+  (tbl.lookup text).getD none
+
+def resS : Res → String
+  | .unit => "ok"
+  | .bool b => boolS b
+  | .rules b _ => boolS b
+  | .err k => "err:" ++ k.toString
+  | .panic => "panic"
+
+def outS : Out ErrKind Bool → String
+  | .ok b => boolS b
+  | .err k => "err:" ++ k.toString
+  | .panic => "panic"
+
+def optD (s : String) : Option String := if s == "-" then none else some (unesc s)
+
+def akindOf : String → AKind
+  | "memory" => .memory | "file" => .file | "string" => .string | _ => .null
+
+def faultOf (s : String) : Fault :=
+  if s == "err" then .err else if s == "refuse" then .refuse
+  else if s.startsWith "fail" then .failAfter (String.ofList (s.toList.drop 4)).toNat! else .pass
+
+/-- adapter initial content: memory = lines `[sec, ptype, fields…]`; file/string = text -/
+def mkAdapter (kind : String) (content : String) (text : String) : AdapterSt :=
+  let k := akindOf kind
+  { kind := k, lines := if k = .memory then (decLists content).foldl (fun acc l => (OrdSet.add acc l).1) [] else [],
+    text := if k = .file || k = .string then (unesc text).toList else [], filtered := false, plan := [] }
+
+def enfReq (st : DrvState) (vals : List String) : Out ErrKind Bool :=
+  st.enf.enforce (builtinCall st.enf.userFns) (tblFn st.tbl) (vals.map Sexpr.parseVal)
+
+def enfReqCtx (st : DrvState) (suffix : String) (vals : List String) : Out ErrKind Bool :=
+  st.enf.enforceCtx suffix (builtinCall st.enf.userFns) (tblFn st.tbl) (vals.map Sexpr.parseVal)
+
+def outC : Out ErrKind Bool → Char
+  | .ok true => 't' | .ok false => 'f' | .err _ => 'e' | .panic => 'p'
+
+def eventS : Event → String
+  | .addPolicy s p r => "add|" ++ s ++ "|" ++ p ++ "|" ++ encList r
+  | .addPolicies s p rs => "addm|" ++ s ++ "|" ++ p ++ "|" ++ encLists rs
+  | .removePolicy s p r => "rm|" ++ s ++ "|" ++ p ++ "|" ++ encList r
+  | .removePolicies s p rs => "rmm|" ++ s ++ "|" ++ p ++ "|" ++ encLists rs
+  | .removeFiltered s p rs => "rmf|" ++ s ++ "|" ++ p ++ "|" ++ encLists rs
+  | .savePolicy rs => "save|" ++ encLists rs
+  | .clearPolicy => "clear"
+
+def upd (st : DrvState) (r : Enforcer × Res) : DrvState × String := ({ st with enf := r.1 }, resS r.2)
+
+def sortRules (rs : List Rule) : List Rule :=
+  let keyed := rs.map (fun r => (encList r, r))
+  let sorted := sortStrings (keyed.map (·.1))
+  sorted.filterMap (fun k => keyed.lookup k)
+
+def stepEnf (st : DrvState) (f : List String) : Option (DrvState × String) :=
+  let e := st.enf
+  match f with
+  | ["m.reset"] => some ({ st with spec := {} }, "ok")
+  | ["m.r", k, toks] => some ({ st with spec := { st.spec with r := st.spec.r ++ [(k, (decList toks).length)] } }, "ok")
+  | ["m.p", k, toks] =>
+    some ({ st with spec := { st.spec with p := st.spec.p ++ [{ key := k, tokens := (decList toks).map (fun t => k ++ "_" ++ t), arity := 0, policy := [] }] } }, "ok")
+  | ["m.g", k, n] =>
+    some ({ st with spec := { st.spec with g := st.spec.g ++ [{ key := k, tokens := [], arity := n.toNat!, policy := [] }] } }, "ok")
+  | ["m.e", k, text] => some ({ st with spec := { st.spec with e := st.spec.e ++ [(k, escapeAssertion (unesc text))] } }, "ok")
+  | ["m.m", k, sx, _] => some ({ st with spec := { st.spec with m := st.spec.m ++ [(k, Sexpr.parseExpr sx)] } }, "ok")
+  | ["m.tbl", text, sx] => some ({ st with spec := { st.spec with tbl := st.spec.tbl ++ [(unesc text, Sexpr.parseExpr sx)] } }, "ok")
+  | ["e.new", kind, content, text, watcher] =>
+    (match Enforcer.new st.spec.defs st.spec.store (mkAdapter kind content text) with
+     | none => some (st, "err:model")
+     | some (e, r) => some ({ st with enf := { e with hasWatcher := watcher == "w" }, tbl := st.spec.tbl }, resS r))
+  | ["e.add", sec, pt, rule] => some (upd st (e.addPolicy sec pt (decList rule)))
+  | ["e.addm", sec, pt, rules] => some (upd st (e.addPolicies sec pt (decLists rules)))
+  | ["e.rm", sec, pt, rule] => some (upd st (e.removePolicy sec pt (decList rule)))
+  | ["e.rmm", sec, pt, rules] => some (upd st (e.removePolicies sec pt (decLists rules)))
+  | ["e.rmf", sec, pt, idx, vals] => some (upd st (e.removeFiltered sec pt idx.toNat! (decList vals)))
+  | ["e.deluser", n] => some (upd st (e.deleteUser (unesc n)))
+  | ["e.delrole", n] => some (upd st (e.deleteRole (unesc n)))
+  | ["e.delperm", perm] => some (upd st (e.deletePermission (decList perm)))
+  | ["e.clear"] => some (upd st e.clearPolicy)
+  | ["e.load"] => some (upd st e.loadPolicy)
+  | ["e.loadf", fp, fg] => some (upd st (e.loadFilteredPolicy (decList fp) (decList fg)))
+  | ["e.save"] => some (upd st e.savePolicy)
+  | ["e.build"] => let r := e.buildRoleLinks; some ({ st with enf := r.1 }, match r.2 with | none => "ok" | some k => "err:" ++ k.toString)
+  | ["e.setrm"] => some (upd st e.setRoleManager)
+  | ["e.setmodel"] =>
+    let r := e.setModel st.spec.defs st.spec.store
+    some ({ st with enf := r.1, tbl := st.spec.tbl }, resS r.2)
+  | ["e.setadapter", kind, content, text] => some (upd st (e.setAdapter (mkAdapter kind content text)))
+  | ["e.fault", plan] =>
+    some ({ st with enf := { e with adapter := { e.adapter with plan := if plan == "-" then [] else (plan.splitOn ",").map faultOf } } }, "ok")
+  | ["e.auto", what, b] =>
+    let v := b == "true"
+    (match what with
+     | "save" => some ({ st with enf := { e with autoSave := v } }, "ok")
+     | "build" => some ({ st with enf := { e with autoBuild := v } }, "ok")
+     | "notify" => some ({ st with enf := e.enableAutoNotify v }, "ok")
+     | "enforce" => some ({ st with enf := { e with enabled := v } }, "ok")
+     | _ => none)
+  | ["e.addfn", n] => some ({ st with enf := { e with userFns := unesc n :: e.userFns } }, "ok")
+  | ["e.seteft"] => some (st, "ok")
+  | "e.enf" :: vals => some (st, outS (enfReq st vals))
+  | "e.enfc" :: suffix :: vals => some (st, outS (enfReqCtx st (unesc suffix) vals))
+  | ["e.enfs", reqs] =>
+    -- many requests in one line: `;`-separated, values `,`-separated (already escaped)
+    some (st, String.ofList ((reqs.splitOn ";").map (fun r => outC (enfReq st (if r == "|" then [] else r.splitOn ",")))))
+  | ["e.enfcs", suffix, reqs] =>
+    some (st, String.ofList ((reqs.splitOn ";").map (fun r => outC (enfReqCtx st (unesc suffix) (if r == "|" then [] else r.splitOn ",")))))
+  | ["e.pol"] => some (st, encLists (e.store.allOf "p") ++ " " ++ encLists (e.store.allOf "g"))
+  | ["e.get", sec, pt] => some (st, encLists (e.store.getPolicy sec pt))
+  | ["e.has", sec, pt, rule] => some (st, boolS (e.store.hasPolicy sec pt (decList rule)))
+  | ["e.getf", sec, pt, idx, vals] => some (st, encLists (e.store.getFiltered sec pt idx.toNat! (decList vals)))
+  | ["e.vals", sec, pt, idx] =>
+    some (st, match e.store.valuesForField sec pt idx.toNat! with | some v => encList v | none => "panic")
+  | ["e.roles", n, d] => some (st, encList (sortStrings (e.getRolesForUser (unesc n) (optD d))))
+  | ["e.users", n, d] => some (st, encList (sortStrings (e.getUsersForRole (unesc n) (optD d))))
+  | ["e.hasrole", n, r, d] => some (st, boolS (e.hasRoleForUser (unesc n) (unesc r) (optD d)))
+  | ["e.iroles", n, d] => some (st, encList (sortStrings (e.getImplicitRoles (unesc n) (optD d))))
+  | ["e.perms", n, d] => some (st, encLists (e.getPermissionsForUser (unesc n) (optD d)))
+  | ["e.iperms", n, d] => some (st, encLists (sortRules (e.getImplicitPermissions (unesc n) (optD d))))
+  | ["e.filtered"] => some (st, boolS e.adapter.filtered)
+  | ["e.events"] => some ({ st with enf := { e with log := [] } }, if e.log.isEmpty then "-" else " ".intercalate (e.log.map eventS))
+  | ["e.adapter"] =>
+    some (st, match e.adapter.kind with
+      | .memory => encLists e.adapter.lines
+      | .null => "-"
+      | _ => esc (String.ofList e.adapter.text))
+  | _ => none
+
 def step (st : DrvState) (f : List String) : DrvState × String :=
+  match stepEnf st f with
+  | some r => r
+  | none =>
   match f with
   | ["eff.run", x, cap, seq] =>
     (st, effRun (Stream.new (exprOfIdx x.toNat!) cap.toNat!) seq.toList)
